@@ -421,8 +421,12 @@ def run_history_cases(chk, variant, text, nm, r, one_go_failed, quick, nscen, hs
 
 def run(chk):
     quick = chk.tier == "quick"
-    ok, log = chk.prove(["extract/Extract_C03.vo", "extract/Extract_ED.vo"])
-    chk.trusted += ["extraction (ExtrOcamlBasic, ExtrOcamlNatInt, ExtrOCamlFloats), ocaml/driver_c03.ml (parsing, sparse<->dense, printing), harness/h_ed.cpp, harness/h_c10.cpp, tools/edlib.py",
+    ok, log = chk.prove(["extract/Extract_C03.vo", "extract/Extract_ED.vo"], extra_props=["Properties_C10_source.v"])
+    chk.trusted += ["translator/gen_ham.py (statement splitter + shape recognition, ~1000 lines of Python): reads the loops, cells, value expressions, product cases and "
+                    "sparsification steps of FieldOperatorPart::compute, the loop of FieldOperator::compute and the statements of FieldOperatorContainer::prepareAll / "
+                    "computeAll off the source into coq/gen/Gen_FieldOp*.v, Gen_Foc*.v; Properties_C10_source.v is about those generated descriptions and about "
+                    "FieldOpGen.v's reading of them; a function that leaves the recognised shape falls back to the snapshot and is then tied by the runs only",
+                    "extraction (ExtrOcamlBasic, ExtrOcamlNatInt, ExtrOCamlFloats), ocaml/driver_c03.ml (parsing, sparse<->dense, printing), harness/h_ed.cpp, harness/h_c10.cpp, tools/edlib.py",
                     "theories/ContainerHistory.v is a hand-written model of FieldOperatorContainer::prepareAll / computeAll (not extracted, not translated): its theorem says what "
                     "every history must produce, the history runs compare the library with the specification directly",
                     "mathcomp 1.15 (ssreflect, algebra) as installed",
